@@ -2,6 +2,7 @@
 package main
 
 import (
+	"runtime/pprof"
 	"encoding/json"
 	"flag"
 	"fmt"
@@ -54,6 +55,13 @@ func main() {
 			fmt.Println(id)
 		}
 		return
+	}
+	if f := os.Getenv("VERIF_CPUPROFILE"); f != "" {
+		// debugging aid
+		if fh, err := os.Create(f); err == nil {
+			pprof.StartCPUProfile(fh)
+			defer pprof.StopCPUProfile()
+		}
 	}
 	debug.SetGCPercent(200)
 	debug.SetMemoryLimit(2 << 30) // collect eagerly: damaged frames make the client reserve garbage lengths
